@@ -251,7 +251,7 @@ func (o *c14Oracle) AfterRun(w *World, op *Op, res *RunResult) {
 		return
 	}
 	if !res.OK() {
-		w.Fail("run-failed-on-runnable-world", "op %d flags %d stage=%s err=%s", op.ID, op.Flags, res.Stage, res.Err)
+		w.Fail("run-failed-on-runnable-world:"+res.FailClass(), "op %d flags %d stage=%s err=%s", op.ID, op.Flags, res.Stage, res.Err)
 		return
 	}
 	if len(res.Plan) > 0 {
